@@ -277,6 +277,9 @@ def r21_fresh_parameter(facts):
                     ok_d = True
                 elif d.get("k") == "Field" and d.get("adt") == ARRAY and d["name"] == "dimensions" and place_key(d["e"]) == target:
                     ok_d = True
+                if not ok_d and d.get("k") == "VarRef" and d["v"] in binds and binds[d["v"]][0] != "let" and "Vec<usize>" in (d.get("ty") or ""):
+                    c.unk(inst, where, "the new parameter's dimensions come out of a local collection filled earlier (`%s`): which parameter they were read from is not followed" % show(d)[:40])
+                    continue
                 if not ok_d:
                     c.bad(inst, where, "the new parameter's dimensions are not the old parameter's own dimensions: %s" % show(tup["fields"][0])[:100])
                     continue
